@@ -9,7 +9,10 @@ from refcodec import server_frame, close_payload
 
 def real_one(sc_json):
     sc = scenario_from_json(sc_json)
-    return run_real(sc)
+    try:
+        return run_real(sc)
+    except runner.HangError:
+        return 'HANG'          # the real code blocked (see runner.HangError); a trace no model run ever produces
 
 
 def scenario_to_json(sc):
@@ -37,7 +40,7 @@ def scenario_to_json(sc):
                 reactions={str(k): [enc_act(a) for a in v] for k, v in sc.reactions.items()},
                 poll=sc.poll, prate=sc.prate, ptimeout=sc.ptimeout, autopong=sc.autopong, ctimeout=sc.ctimeout,
                 conn=sc.conn, wfail=sorted(sc.wfail), compress=sc.compress, protocols=sc.protocols, url=sc.url,
-                key_seed=sc.key_seed, variant=sc.variant)
+                key_seed=sc.key_seed, variant=sc.variant, zero=sc.zero)
 
 
 def scenario_from_json(j):
@@ -69,7 +72,7 @@ def scenario_from_json(j):
     sc = Scenario([dec_env(s) for s in j['env']], {int(k): [dec_act(a) for a in v] for k, v in j['reactions'].items()},
                   poll=j['poll'], prate=j['prate'], ptimeout=j['ptimeout'], autopong=j['autopong'],
                   ctimeout=j['ctimeout'], conn=j['conn'], wfail=j['wfail'], compress=j['compress'],
-                  protocols=j['protocols'], url=j['url'], key_seed=j['key_seed'], variant=j['variant'])
+                  protocols=j['protocols'], url=j['url'], key_seed=j['key_seed'], variant=j['variant'], zero=j.get('zero', False))
     return sc
 
 
@@ -162,4 +165,7 @@ def replay_core(rp):
 
 def real_chain(js_list):
     scs = [scenario_from_json(j) for j in js_list]
-    return world.run_chain(scs)
+    try:
+        return world.run_chain(scs)
+    except runner.HangError:
+        return ['HANG'] * len(scs)
